@@ -55,11 +55,18 @@ def ttsv_body(ctx, case):
         (int(x) if as_int else float(x)) for x in case["v"]]
     kw = {}
     if skip is not None:
-        kw["skip_dim"] = int(skip)
+        kw["skip_dim"] = cm.present_dims(case, int(skip))
     if case["version"] is not None:
         kw["version"] = case["version"]
+    if case.get("pres"):  # (round 4) the vector as another caller would hand it over
+        if isinstance(varg, np.ndarray):
+            varg = cm.present_array(case, varg)
+        elif case["pres"].get("container") == "tuple":
+            varg = tuple(varg)
+        ctx.label(*cm.pres_labels(case))
+    pos, kw = cm.positional(case, kw, ("skip_dim", "version"))
     with ctx.sut("tensor.ttsv"):
-        R = X.ttsv(varg, **kw)
+        R = X.ttsv(varg, *pos, **kw)
     ctx.label(cm.result_kind(R))
     got = cm.result_array(ctx, R, "ttsv-result", allow=("tensor", "ndarray", "scalar"))
     if expect.size == 1 and got.size == 1:
@@ -68,7 +75,8 @@ def ttsv_body(ctx, case):
     else:
         expect_c, bound_c = expect, bound
     nterms = ref.prod(shape[first:]) * (N + 1)
-    cm.compare(ctx, got, expect_c, bound_c, nterms, cm.intvalued(h) and case.get("vvkind", "int") == "int", "ttsv-value",
+    cm.compare(ctx, got, expect_c, bound_c, cm.pres_nterms(case, nterms),
+               cm.pres_exact(case, cm.intvalued(h) and case.get("vvkind", "int") == "int"), "ttsv-value",
                f"skip={skip} version={case['version']}")
 
 
@@ -153,9 +161,10 @@ def norm_body(ctx, case):
     n = (cm.terms(h) ** 2) * A.size + 1
     if case.get("tight"):
         n = cm.tight_count(h)  # (round 3) the rounding-error count of the Gram / full-then-sum algorithms themselves
+    n = cm.pres_nterms(case, n)  # (round 4) single-precision data: single-precision unit
     tol = 64 * n * ref.EPS * B + 8 * ref.EPS * S + 1e-290
     ctx.check(abs(r * r - S) <= tol, "norm-value", f"norm {r!r}, norm^2 {r * r!r} vs sum of squares {S!r} tol {tol:.3g}")
-    if cm.intvalued(h) and B < 2.0**50:
+    if cm.pres_exact(case, cm.intvalued(h)) and B < 2.0**50:
         # integer data: the sum of squares is exact, only sqrt rounds
         ctx.check(abs(r - np.sqrt(S)) <= 4 * ref.EPS * np.sqrt(S), "norm-value-intdata", f"{r!r} vs {np.sqrt(S)!r}")
 
@@ -202,14 +211,19 @@ def contract_body(ctx, case):
     ctx.label(*cm.holder_labels(h), f"order{N}", "i<j" if i < j else "i>j", "adjacent" if abs(i - j) == 1 else "apart",
               cm.fill_label(expect), f"tracesize{h['shape'][i]}", *cm.object_labels(X))
     ctx.nt = N >= 3 and len(set(h["shape"])) >= 2 and h["shape"][i] >= 2 and bool(np.any(expect != 0))
+    ci, cj = i, j
+    if case.get("pres"):  # (round 4) numpy integer scalars of any width where a Python int is documented
+        ci, cj = cm.present_dims(case, int(i)), cm.present_dims(case, int(j))
+        ctx.label(*cm.pres_labels(case))
     with ctx.sut(f"{kind}.contract"):
-        R = X.contract(i, j)
+        R = X.contract(ci, cj)
     ctx.label(cm.result_kind(R))
     allow = ("tensor", "scalar") if kind == "tensor" else ("sptensor", "tensor", "scalar")
     got = cm.result_array(ctx, R, "contract-result", allow=allow)
     if N == 2:
         ctx.check(isinstance(R, cm.SCALAR_TYPES), "contract-2way-gives-scalar", type(R).__name__)
-    cm.compare(ctx, got, expect, bound, h["shape"][i] + 1, cm.intvalued(h), "contract-value", f"i={i} j={j}")
+    cm.compare(ctx, got, expect, bound, cm.pres_nterms(case, h["shape"][i] + 1), cm.pres_exact(case, cm.intvalued(h)),
+               "contract-value", f"i={i} j={j}")
 
 
 cell("C02/contract/tensor", strategy=_contract_strategy("tensor"), quick=500, thorough=10000, shards=(2, 8))(contract_body)
@@ -299,6 +313,9 @@ def collapse_body(ctx, case):
         args = [None]
     if fun is not None:
         args.append(fun)
+    if case.get("pres") and args and args[0] is not None:  # (round 4)
+        args[0] = cm.present_dims(case, int(dims[0]) if form == "int" else [int(d) for d in dims])
+        ctx.label(*cm.pres_labels(case))
     ctx.label(*cm.holder_labels(h), "reducer-" + red, "dims-" + form, f"ncollapsed{len(dims)}of{N}",
               "dims-unsorted" if dims != sorted(dims) else "dims-sorted", cm.fill_label(expect),
               f"remaining{N - len(dims)}", *cm.object_labels(X))
@@ -311,7 +328,8 @@ def collapse_body(ctx, case):
     if len(dims) == N:
         ctx.check(isinstance(R, cm.SCALAR_TYPES), "collapse-all-modes-gives-scalar", type(R).__name__)
     nterms = ref.prod(shape[d] for d in dims) + 1
-    cm.compare(ctx, got, expect, bound, nterms, cm.intvalued(h) or always_exact, "collapse-value",
+    cm.compare(ctx, got, expect, bound, cm.pres_nterms(case, nterms), cm.pres_exact(case, cm.intvalued(h) or always_exact),
+               "collapse-value",
                f"dims={dims} reducer={red}")
 
 
@@ -417,23 +435,28 @@ def reconstruct_ttensor(ctx, case):
             R = X.reconstruct()
         else:
             samples = []
-            for s in case["samples"]:
+            pres = case.get("pres") or {}
+            idt = np.dtype(pres["dims"]) if pres.get("dims") in cm.DIM_DTYPES else np.dtype(int)
+            for k, s in enumerate(case["samples"]):
                 if s["kind"] == "int":
-                    samples.append(int(s["value"]))
+                    samples.append(cm.present_dims(case, int(s["value"])))
                 elif s["kind"] == "index":
-                    samples.append(np.array(s["value"], dtype=int))
+                    samples.append(np.array(s["value"], dtype=idt))  # (round 4) index vectors of any integer width
                 else:
-                    samples.append(np.array(s["value"], dtype=float).reshape(len(s["value"]), -1))
+                    samples.append(cm.present_array(case, np.array(s["value"], dtype=float).reshape(len(s["value"]), -1), k))
             if form == "all-modes":
                 R = X.reconstruct(samples)
             elif form == "scalar":
-                R = X.reconstruct(samples[0], int(case["modes"][0]))
+                R = X.reconstruct(samples[0], cm.present_dims(case, int(case["modes"][0])))
             elif form == "single":
-                R = X.reconstruct(samples[0], int(case["modes"][0]))
+                R = X.reconstruct(samples[0], cm.present_dims(case, int(case["modes"][0])))
             else:
                 modes = np.array(case["modes"], dtype=int) if case["mform"] == "array" else [int(m) for m in case["modes"]]
+                if pres:
+                    modes = cm.present_dims(case, [int(m) for m in case["modes"]])
                 R = X.reconstruct(samples, modes)
     got = cm.result_array(ctx, R, "reconstruct-result", allow=("tensor",))
     nterms = cm.terms(h) * nmul * (len(shape) + 1)
-    cm.compare(ctx, got, expect, bound, nterms, cm.intvalued(h), "reconstruct-value",
+    ctx.label(*cm.pres_labels(case))
+    cm.compare(ctx, got, expect, bound, cm.pres_nterms(case, nterms), cm.pres_exact(case, cm.intvalued(h)), "reconstruct-value",
                f"modes={case['modes']} kinds={[s['kind'] for s in (case['samples'] or [])]}")
